@@ -246,16 +246,10 @@ fn crossing_menu(sd: &StackD, cell_db: (i64, i64), track_below: usize, cross_bel
 /// grid positions x reflections for an instance of `child` inside a parent of `size` (primitive pitches):
 /// any primitive-pitch position along the tracks of layer 0, whole periods across every layer the child reaches
 fn instance_menu(sd: &StackD, size: (i64, i64), child: &ChildD, ci: usize) -> Vec<InstIn> {
-    let mut stepx = 1;
-    let mut stepy = 1;
-    for l in 0..child.metals.min(sd.layers.len()) {
-        let ly = &sd.layers[l];
-        if ly.horiz {
-            stepy = tm::lcm(stepy, ly.pitch() / sd.prim.1);
-        } else {
-            stepx = tm::lcm(stepx, ly.pitch() / sd.prim.0);
-        }
-    }
+    // positions on the primitive grid in both directions: an instance need not sit on the period grid of the
+    // layers it reaches (it then blocks every period it overlaps, partly)
+    let (stepx, stepy) = (1, 1);
+    let _ = ci;
     let mut v = vec![];
     let mut y = 0;
     while y + child.size.1 <= size.1 {
@@ -281,7 +275,7 @@ impl CaseDriver for Convert {
         let names: Vec<String> = family().iter().enumerate().map(|(i, s)| format!("{i}: {}", s.name)).collect();
         Describe {
             rule: format!(
-                "{} stacks ({}) x cell metals 1..=stack height x outline {} periods (a period box = lcm of the layer pitches per direction) — all free; then up to {} cuts, {} assignments and {} instance(s) chosen from the complete menus (cuts: every in-range crossing whose track layer is inside the cell's metals and whose crossing layer is adjacent in the stack; assignments: the same with both layers inside the cell's metals, second net equal or different; instances: a 1-metal or 2-metal child of one period box, or a 0-metal child of one primitive pitch (which must block nothing), at every grid position that keeps it inside the outline — any primitive-pitch position along layer-0 tracks, whole periods across — in all 4 reflections), cut listing order normal / reversed, with at most {} departures from the empty cell in total (deviation bound). State = (stack, cell); non-trivial = at least one cut, assignment or instance.",
+                "{} stacks ({}) x cell metals 1..=stack height x outline {} periods (a period box = lcm of the layer pitches per direction) — all free; then up to {} cuts, {} assignments and {} instance(s) chosen from the complete menus (cuts: every in-range crossing whose track layer is inside the cell's metals and whose crossing layer is adjacent in the stack; assignments: the same with both layers inside the cell's metals, second net equal or different; instances: a 1-metal or 2-metal child of one period box, or a 0-metal child of one primitive pitch (which must block nothing), at every primitive-pitch position (both directions, on or off the period grid of the layers it reaches) that keeps it inside the outline, in all 4 reflections), cut listing order normal / reversed, with at most {} departures from the empty cell in total (deviation bound). State = (stack, cell); non-trivial = at least one cut, assignment or instance.",
                 family().len(),
                 names.join("; "),
                 t.pick("{1,2} x {1,2}", "{1,2} x {1,2}, 3 x 1, 1 x 3"),
